@@ -49,7 +49,32 @@ func (c *Config) initAllowed(p string) bool {
 }
 
 func (c *Config) isTarget(p string) bool {
-	return strings.HasPrefix(p, c.TargetPrefix) && !strings.HasSuffix(p, "/zzverif")
+	return strings.HasPrefix(p, c.TargetPrefix) && !strings.Contains(p, "/zzverif")
+}
+
+var harnessFn sync.Map // *ssa.Function -> bool (true = harness code)
+
+// isCodeUnderTest: a function of the repository that is not harness code.
+func (i *interpreter) isCodeUnderTest(fn *ssa.Function) bool {
+	if fn.Pkg == nil || !i.cfg.isTarget(fn.Pkg.Pkg.Path()) {
+		if fn.Parent() != nil {
+			return i.isCodeUnderTest(fn.Parent())
+		}
+		return false
+	}
+	if v, ok := harnessFn.Load(fn); ok {
+		return !v.(bool)
+	}
+	h := false
+	if fn.Pos().IsValid() {
+		f := fn.Prog.Fset.Position(fn.Pos()).Filename
+		if k := strings.LastIndex(f, "/"); k >= 0 {
+			f = f[k+1:]
+		}
+		h = strings.HasPrefix(f, "zz_verif_")
+	}
+	harnessFn.Store(fn, h)
+	return !h
 }
 
 func (c *Config) isTargetInit(p string) bool { return strings.HasPrefix(p, c.TargetPrefix) }
